@@ -104,6 +104,26 @@ fn oracle(s: &ProgScene<X>, t: &Trace) -> Vec<Violation> {
             }
         }
     }
+    // an actor that ends because its last strong handle went away (nobody stopped it, its stream
+    // is still open) has first handled everything its mailbox had accepted
+    if !x.closes && !stop_requested && term.is_some_and(|(_, cancelled)| !cancelled) {
+        for (c, cs) in s.clients.iter().enumerate() {
+            for (i, op) in cs.ops.iter().enumerate() {
+                if let Op::Send(_, id) | Op::Call(_, id) = op {
+                    if an.op(c as u8, i as u16).is_some_and(|o| o.ok()) {
+                        crate::check::oblige("accepted-handled-before-last-drop-end");
+                        if an.enter_of_msg(0, *id).is_empty() {
+                            out.push(Violation {
+                                clause: "accepted-handled-before-last-drop-end",
+                                key: "C13/accepted-message-lost-at-last-drop".into(),
+                                detail: format!("message {id} was accepted (Ok), nobody stopped the actor and its stream was still open, yet it ended without handling it"),
+                            });
+                        }
+                    }
+                }
+            }
+        }
+    }
     // termination: finished then stopped, once each, address Ok
     let fins = an.enters.iter().filter(|e| e.cb == Cb::Finished).count();
     let stops = an.enters.iter().filter(|e| e.cb == Cb::Stopped).count();
@@ -256,6 +276,9 @@ struct Fair {
     pid: &'static str,
     via: StreamVia,
     by_drop: bool,
+    /// instead of the stop: 1 = a call, 2 = a ping, issued by a client task (over all schedules
+    /// also before the loop's first iteration)
+    req: u8,
     /// fewest items handled before stopped() over all executions seen so far
     fewest: std::cell::Cell<Option<usize>>,
     executions: std::cell::Cell<u64>,
@@ -273,6 +296,11 @@ impl crate::check::Scene for Fair {
             crate::scenes::OwningOrAddr::Own(o) => o.detach(),
             crate::scenes::OwningOrAddr::Addr(a) => a,
         };
+        if self.req > 0 {
+            let op = if self.req == 1 { Op::Call(H::Addr(0), 1) } else { Op::Ping(H::Addr(0)) };
+            exec.spawn_client(0, run_client(0, Handles::with_addr(addr), vec![op, Op::Stop(H::Addr(0)), Op::Await(H::Addr(0))]));
+            return;
+        }
         let ops = if self.by_drop { vec![Op::Drop(H::Addr(0))] } else { vec![Op::Stop(H::Addr(0)), Op::Await(H::Addr(0))] };
         // the request is issued here, before any task runs: it is in the mailbox (or the
         // mailbox is closed) before the loop's first iteration
@@ -298,7 +326,11 @@ impl crate::check::Scene for Fair {
     }
     fn observe(&self, t: &Trace) {
         let an = An::new(t.log);
-        let Some(st) = an.enters.iter().find(|e| e.cb == Cb::Stopped).map(|e| e.idx) else { return };
+        let st = match self.req {
+            0 => an.enters.iter().find(|e| e.cb == Cb::Stopped).map(|e| e.idx),
+            _ => an.op(0, 0).filter(|o| o.ok()).and_then(|o| o.end),
+        };
+        let Some(st) = st else { return };
         let before = an.enters.iter().filter(|e| matches!(e.cb, Cb::Item(_)) && e.idx < st).count();
         self.executions.set(self.executions.get() + 1);
         self.fewest.set(Some(self.fewest.get().map_or(before, |f| f.min(before))));
@@ -312,11 +344,12 @@ impl crate::check::Scene for Fair {
             Some(f) if (f as u32) < BACKLOG => vec![],
             other => vec![Violation {
                 clause: "mailbox-gets-its-turn",
-                key: format!("{}/stream-served-ahead-of-the-mailbox/{}", self.pid, if self.by_drop { "drop" } else { "stop" }),
+                key: format!("{}/stream-served-ahead-of-the-mailbox/{}", self.pid, match (self.req, self.by_drop) { (1, _) => "call", (2, _) => "ping", (_, true) => "drop", _ => "stop" }),
                 detail: format!(
-                    "in all {} executions the actor handled the whole backlog of {BACKLOG} ready items before it reacted to the {} that was already waiting (fewest items before stopped(): {other:?}): a stream that is always ready would keep it alive forever",
+                    "in all {} executions the actor handled the whole backlog of {BACKLOG} ready items before it reacted to the {} that was already waiting (fewest items before: {other:?}): behind a stream that is always ready it would {}",
                     self.executions.get(),
-                    if self.by_drop { "closed mailbox" } else { "stop request" }
+                    match (self.req, self.by_drop) { (1, _) => "call", (2, _) => "ping", (_, true) => "closed mailbox", _ => "stop request" },
+                    if self.req > 0 { "never be answered" } else { "keep the actor alive forever" }
                 ),
             }],
         }
@@ -326,15 +359,15 @@ impl crate::check::Scene for Fair {
 pub fn fair_cases(pid: &'static str) -> Vec<Case> {
     let mut v = vec![];
     for via in [StreamVia::SpawnOnStream, StreamVia::BuildOnStream, StreamVia::BoundedOnStream(1)] {
-        for by_drop in [false, true] {
-            if by_drop && pid != "C13" {
+        for (by_drop, req) in [(false, 0), (true, 0), (false, 1), (false, 2)] {
+            if by_drop && pid != "C13" || (req > 0) != (pid == "C02") {
                 continue;
             }
             v.push(Case {
-                desc: format!("stream [ready backlog of {BACKLOG}, {} already waiting] via={via:?}", if by_drop { "closed mailbox" } else { "stop request" }),
+                desc: format!("stream [ready backlog of {BACKLOG}, {} already waiting] via={via:?}", match (req, by_drop) { (1, _) => "call", (2, _) => "ping", (_, true) => "closed mailbox", _ => "stop request" }),
                 exec: ExecCfg { horizon: 30, ..ExecCfg::default() },
                 bound: None,
-                scene: Box::new(Fair { pid, via, by_drop, fewest: Default::default(), executions: Default::default() }),
+                scene: Box::new(Fair { pid, via, by_drop, req, fewest: Default::default(), executions: Default::default() }),
             });
         }
     }
@@ -436,7 +469,7 @@ pub fn property() -> Property {
     Property {
         id: "C13",
         cases,
-        clauses: &["mailbox-gets-its-turn", "items-in-order-once", "terminates", "all-items-when-outliving-stream"],
+        clauses: &["mailbox-gets-its-turn", "items-in-order-once", "terminates", "all-items-when-outliving-stream", "accepted-handled-before-last-drop-end"],
         full_rerun_check: true,
         assumptions: &[
             "a never-ending stream that is always ready is excluded: terminating it on stop relies on the fairness of the random tie-break (probabilistic, not a bounded-exploration property)",
